@@ -906,7 +906,7 @@ func (*Context).evaluate
   ghost at call 1 RollCoC: gdnum = ret0; gdtext = ret1
   ghost at call 1 RollWoD: gdnum = ret0; gdtext = ret3
   ghost at call 1 RollDoubleCross: gdnum = ret0; gdtext = ret3
-  ghost at loop 3 end: if (code.T == typeDice || code.T == typeDiceFate || code.T == typeDiceCocBonus || code.T == typeDiceCocPenalty || code.T == typeDiceWod || code.T == typeDiceDC) && ctx.Error == nil { ghostAssert(stack[e.top-1].TypeId == VMTypeInt && stack[e.top-1].Value.(IntType) == gdnum); ghostAssert(details[len(details)-1].Ret != nil && details[len(details)-1].Ret.TypeId == VMTypeInt && details[len(details)-1].Ret.Value.(IntType) == gdnum); ghostAssert(details[len(details)-1].Text == gdtext) }
+  ghost at loop 3 end: if (code.T == typeDice || code.T == typeDiceFate || code.T == typeDiceCocBonus || code.T == typeDiceCocPenalty || code.T == typeDiceWod || code.T == typeDiceDC) && ctx.Error == nil { ghostAssert(stack[e.top-1].TypeId == VMTypeInt && stack[e.top-1].Value.(IntType) == gdnum); ghostAssert(details[len(details)-1].Ret != nil && details[len(details)-1].Ret.TypeId == VMTypeInt && details[len(details)-1].Ret.Value.(IntType) == gdnum); ghostAssert(isFresh(details[len(details)-1].Ret)); ghostAssert(details[len(details)-1].Text == gdtext) }
   ghost at loop 3 begin: gopc = e.NumOpCount
   ghost at precall 1 RollCommon: ghostAssert(e.NumOpCount == math.MaxInt64 || e.NumOpCount >= gopc + arg1)
   ghost at precall 1 RollCoC: ghostAssert(e.NumOpCount == math.MaxInt64 || e.NumOpCount >= gopc + arg2)
